@@ -93,20 +93,106 @@ def check(F, rep):
     du = defuse(h)
     sel = find_calls(h, regex=ORD_METHODS)
     sel = [(b, t) for b, t in sel if "ProtocolVersion" in h.locals[t["dest"]["l"]]]
-    rep.exact("server", "selection call on the offered versions", len(sel), 1)
-    if sel:
+    slot = None
+    if not sel:
+        # loop form: `let mut best: Option<ProtocolVersion> = None; for offered in .. { .. }`
+        cands = [pl["l"] for n, pl in h.vars if not pl.get("p") and re.match(r"^core::option::Option<%s>$" % re.escape(PV), str(h.locals[pl["l"]]))
+                 and sum(1 for b_, i_, st in h.stmts() if st["k"] == "a" and st["lhs"] == {"l": pl["l"]}) >= 2]
+        if len(cands) == 1:
+            slot = cands[0]
+    rep.ob("server", len(sel) == 1 or slot is not None, site(h), "the offered versions are reduced to one selection (Iterator::max call or a running-maximum accumulator): %d selection calls, accumulator %s" % (len(sel), slot), skey(F, h, "selection-found"))
+    is_selected = None      # predicate on copy_sources sets
+    ts = []
+    if len(sel) == 1:
         sb, stt = sel[0]
         rep.ob("server", is_call_to(stt, "core::iter::traits::iterator::Iterator::max"), site(h, sb), "selection is Iterator::max (greatest common version under the derived order); callee %s" % callee_names(stt)[0], skey(F, h, "uses-max"))
         mf = [x for x in du.origin_facts(op_base(stt["args"][0]), kinds=("const",)) if norm(x[4].get("fn", "") or "") == PV + "::match_from_str"]
         rep.ob("server", bool(mf), site(h, sb), "offers are parsed with ProtocolVersion::match_from_str", skey(F, h, "parses-offers"))
         hdr = [x for x in du.origin_facts(op_base(stt["args"][0]), kinds=("const",)) if (x[4].get("def") or "").endswith("SEC_WEBSOCKET_PROTOCOL")]
         rep.ob("server", bool(hdr), site(h, sb), "offers come from the Sec-WebSocket-Protocol request header", skey(F, h, "offers-header"))
-        tests, _ = call_result_tests(h, sb)
-        # the chosen version local
-        chosen = set()
-        for l, (fam, neg, lvl) in _[0].items() if False else []:
-            pass
         ts, tags = call_result_tests(h, sb)
+        stop = ()
+        is_selected = lambda cs: bool(cs) and all(x[0] == "call" and x[1] == "core::iter::traits::iterator::Iterator::max" for x in cs)
+    elif slot is not None:
+        from .. import booltab
+        from ..booltab import Unsupported
+        stop = (slot,)
+        mfs = find_calls(h, PV + "::match_from_str")
+        rep.exact("server", "match_from_str calls parsing the offers", len(mfs), 1)
+        hdr = [x for x in du.origin_facts(slot, kinds=("const",)) if (x[4].get("def") or "").endswith("SEC_WEBSOCKET_PROTOCOL")]
+        rep.ob("server", bool(hdr), site(h), "offers come from the Sec-WebSocket-Protocol request header", skey(F, h, "offers-header"))
+        if mfs:
+            mb, mt = mfs[0]
+            rep.ob("server", True, site(h, mb), "offers are parsed with ProtocolVersion::match_from_str", skey(F, h, "parses-offers"))
+
+            def src(o):
+                l = op_base(o)
+                return copy_sources(h, l, stop=stop) if l is not None else set()
+            is_new = lambda o: bool(src(o)) and all(x[0] == "call" and x[1] == PV + "::match_from_str" and x[2] == ("0",) for x in src(o))
+            is_old = lambda o: bool(src(o)) and all(x[0] == "place" and x[1] == slot and tuple(x[2]) == ("0",) for x in src(o))
+            # loop head: the iterator next() that dominates the parse
+            heads = [b_ for b_, t_ in find_calls(h, "core::iter::traits::iterator::Iterator::next") if h.dominates(b_, mb) and b_ in h.reachable(mb)]
+            tg = set()
+            other_w = []
+            for b_ in h.reachable(mt["t"]):
+                for st in h.blocks[b_]["s"]:
+                    if st["k"] == "a" and st["rv"]["k"] == "agg" and st["rv"].get("variant") == "Some" and str(h.locals[st["lhs"]["l"]]) == str(h.locals[slot]) and not st["lhs"].get("p"):
+                        if is_new(st["rv"]["ops"][0]):
+                            tg.add(b_)
+                        elif not is_old(st["rv"]["ops"][0]):
+                            other_w.append(b_)
+            rep.ob("server", bool(tg) and not other_w and len(heads) == 1, site(h, mb), "the accumulator is only ever overwritten with Some(parsed offer) inside the loop over the offers", skey(F, h, "acc-writes"))
+            if tg and len(heads) == 1:
+                try:
+                    paths = booltab.extract(h, target=tg, start=mt["t"], stop={heads[0]})
+                    bad = []
+                    for parsed in (False, True):
+                        for state in ("empty", "lt", "eq", "gt"):
+                            def value_of(a):
+                                if a.kind == "switch":
+                                    l = op_local(a.args[0])
+                                    for st in h.blocks[a.bb]["s"]:
+                                        if st["k"] == "a" and st["lhs"]["l"] == l and st["rv"]["k"] == "discr":
+                                            pl = st["rv"]["p"]
+                                            vals = [int(z) for z, _ in h.blocks[a.bb]["t"]["targets"]]
+                                            if pl["l"] == slot or all(x[0] == "place" and x[1] == slot and tuple(x[2]) == () for x in copy_sources(h, pl["l"], stop=stop) or [("x",)]):
+                                                w = 0 if state == "empty" else 1
+                                                return w if w in vals else "otherwise"
+                                            if pl["l"] == mt["dest"]["l"] or all(x[0] == "call" and x[1] == PV + "::match_from_str" and tuple(x[2]) == () for x in copy_sources(h, pl["l"], stop=stop) or [("x",)]):
+                                                w = 1 if parsed else 0
+                                                return w if w in vals else "otherwise"
+                                    raise Unsupported("branch at bb%d" % a.bb)
+                                if a.kind == "call" and call_matches(a.term, r"^core::cmp::PartialOrd::(lt|le|gt|ge)$"):
+                                    op = a.name.rsplit("::", 1)[-1]
+                                    rel = {"lt": ("lt",), "le": ("lt", "eq"), "gt": ("gt",), "ge": ("gt", "eq")}[op]
+                                    flip = {"lt": "gt", "gt": "lt", "eq": "eq"}
+                                    if is_new(a.args[0]) and is_old(a.args[1]):
+                                        return state in rel
+                                    if is_old(a.args[0]) and is_new(a.args[1]):
+                                        return state != "empty" and flip[state] in rel
+                                raise Unsupported("test %s at bb%d" % (a.name, a.bb))
+                            got = booltab.evaluate(paths, value_of)
+                            if not parsed:
+                                want = False
+                            elif state == "eq":
+                                continue      # equal versions are the same value: either answer is fine
+                            else:
+                                want = state in ("empty", "gt")
+                            if got != want:
+                                bad.append("offer parsed=%s, %s -> %s" % (parsed, {"empty": "nothing selected yet", "lt": "offer < selected", "gt": "offer > selected"}[state], "replaces" if got else "kept"))
+                    rep.ob("server", not bad, site(h, min(tg)), "the accumulator is a running maximum over the parsed offers (greatest common version under the derived order); mismatches: %s" % bad, skey(F, h, "uses-max"))
+                except Unsupported as e:
+                    rep.ob("server", False, site(h, min(tg)), "accumulator update could not be extracted (unrecognised idiom, fails closed): %s" % e, skey(F, h, "uses-max"))
+        # tests of the final selection: switches on the accumulator's discriminant after the loop
+        for b_ in sorted(h.reachable(0)):
+            t_ = h.blocks[b_]["t"]
+            if t_["k"] == "switch":
+                for st in h.blocks[b_]["s"]:
+                    if st["k"] == "a" and st["rv"]["k"] == "discr" and st["rv"]["p"]["l"] == slot and not st["rv"]["p"].get("p") and op_local(t_["d"]) == st["lhs"]["l"] and not (mfs and b_ in h.reachable(mfs[0][0]) and h.dominates(mfs[0][0], b_)):
+                        su, fa = switch_edges(h, b_, 1)
+                        ts.append(Test(b_, su, fa, 0, "discr:option", False, None))
+        is_selected = lambda cs: bool(cs) and all(x[0] == "place" and x[1] == slot and tuple(x[2]) == ("0",) for x in cs)
+    if is_selected is not None:
         # response header
         thv = find_calls(h, PV + "::to_header_value")
         rep.exact("server", "to_header_value calls", len(thv), 1)
@@ -116,9 +202,9 @@ def check(F, rep):
         sw = [x for x in du.origin_facts(0, kinds=("const",)) if (x[4].get("def") or "").endswith("StatusCode::SWITCHING_PROTOCOLS")]
         rep.ob("server", bool(sw), site(h), "the response status is SWITCHING_PROTOCOLS", skey(F, h, "status-101"))
         if thv:
-            src = copy_sources(h, op_base(thv[0][1]["args"][0]))
-            rep.ob("server", bool(src) and all(x[0] == "call" and x[1] == "core::iter::traits::iterator::Iterator::max" for x in src), site(h, thv[0][0]),
-                   "the echoed version is exactly the selected one; sources %s" % sorted(map(str, src)), skey(F, h, "echo-selected"))
+            src_ = copy_sources(h, op_base(thv[0][1]["args"][0]), stop=stop)
+            rep.ob("server", is_selected(src_), site(h, thv[0][0]),
+                   "the echoed version is exactly the selected one; sources %s" % sorted(map(str, src_)), skey(F, h, "echo-selected"))
         # handler: the spawned async block captures the same value
         handler_calls = []
         for g in F.tree(h):
@@ -127,16 +213,15 @@ def check(F, rep):
         rep.exact("server", "relay_connection_handler calls", len(handler_calls), 1)
         for g, b, t in handler_calls:
             rep.fn(g)
-            src = copy_sources(g, op_base(t["args"][3]))
-            ok = bool(src) and all(x[0] == "arg" and x[2][-1:] == ("protocol_version",) for x in src)
+            src_ = copy_sources(g, op_base(t["args"][3]))
+            ok = bool(src_) and all(x[0] == "arg" and x[2][-1:] == ("protocol_version",) for x in src_)
             # and the coroutine aggregate in h captures the selected local
             cap_ok = False
-            for bb, i, s in h.stmts():
-                if s["k"] == "a" and s["rv"]["k"] == "agg" and s["rv"]["ak"] in ("coroutine", "closure") and s["rv"]["def"] == g.path:
-                    for o, name in zip(s["rv"]["ops"], g.upvars):
+            for bb, i, s_ in h.stmts():
+                if s_["k"] == "a" and s_["rv"]["k"] == "agg" and s_["rv"]["ak"] in ("coroutine", "closure") and s_["rv"]["def"] == g.path:
+                    for o, name in zip(s_["rv"]["ops"], g.upvars):
                         if name == "protocol_version":
-                            cs = copy_sources(h, op_base(o))
-                            cap_ok = bool(cs) and all(x[0] == "call" and x[1] == "core::iter::traits::iterator::Iterator::max" for x in cs)
+                            cap_ok = is_selected(copy_sources(h, op_base(o), stop=stop))
             rep.ob("server", ok and cap_ok, site(g, b), "the connection handler runs the selected version (captured by the spawned task)", skey(F, h, "handler-selected"))
 
     # ---- client
